@@ -15,7 +15,7 @@ theorem lt_size_of_get {α : Type} {a : Array α} {i : Nat} {x : α} (h : a[i]? 
 
 theorem simL_step {fuel : Nat} (ih : SimE fo host P bodies fuel) (ihL : SimL fo host P bodies fuel) :
     SimL fo host P bodies (fuel + 1) := by
-  intro cur items st acc r st' h root pc rs0 vs fr entry hloc hwf hen hj hent hlt
+  intro cur items st acc r st' h root pc rs0 vs fr entry hloc hwf hj hent hlt
   cases items with
   | nil =>
     simp only [evalListS, Out.ok.injEq, Prod.mk.injEq] at h
@@ -24,14 +24,13 @@ theorem simL_step {fuel : Nat} (ih : SimE fo host P bodies fuel) (ihL : SimL fo 
   | cons x xs =>
     simp only [LocatedList] at hloc
     simp only [wfCList, Bool.and_eq_true] at hwf
-    have hen' : root = cur ∨ (enFree x = true ∧ enFreeList xs = true) := by simpa [enFreeList] using hen
     simp only [lenList] at hlt
     simp only [evalListS] at h
     rcases eval_cases (fo := fo) (host := host) (bodies := bodies) (cur := cur) (fuel := fuel) (x := x) (st := st)
       with ⟨w, st1, hx⟩ | ⟨w, st1, hx⟩ | ⟨e, hx⟩ | hx <;> simp only [hx] at h
-    · have ihx := (ih x cur st _ _ hx root pc rs0 vs fr entry hloc.1 hwf.1 (hen'.imp id (·.1)) hj hent (by omega)).toReach
+    · have ihx := (ih x cur st _ _ hx root pc rs0 vs fr entry hloc.1 hwf.1 hj hent (by omega)).toReach
       have ihr := ihL cur xs st1 (w :: acc) r st' h root (pc + len x) (w :: rs0) vs fr entry hloc.2 hwf.2
-        (hen'.imp id (·.2)) hj hent (by omega)
+        hj hent (by omega)
       cases r with
       | inl vals =>
         obtain ⟨nv, hv, hn, hr⟩ := ihr
@@ -48,19 +47,18 @@ theorem simL_step {fuel : Nat} (ih : SimE fo host P bodies fuel) (ihL : SimL fo 
         exact ihx.trans hr
     · simp only [Out.ok.injEq, Prod.mk.injEq] at h
       obtain ⟨rfl, rfl⟩ := h
-      obtain ⟨extra, hr, _⟩ := ih x cur st _ _ hx root pc rs0 vs fr entry hloc.1 hwf.1 (hen'.imp id (·.1)) hj hent (by omega)
+      obtain ⟨extra, hr, _⟩ := ih x cur st _ _ hx root pc rs0 vs fr entry hloc.1 hwf.1 hj hent (by omega)
       exact ⟨extra, hr⟩
     · simp at h
     · simp at h
 
 theorem sim_list {fuel : Nat} (ihL : SimL fo host P bodies fuel)
     (items : List (Expr F)) : SimAt fo host P bodies (fuel + 1) (.list items) := by
-  intro cur st res st' h root pc rs vs fr entry hloc hwf hen hj hent hlt
+  intro cur st res st' h root pc rs vs fr entry hloc hwf hj hent hlt
   have h0 := h
   simp only [Located] at hloc
   obtain ⟨hll, hi⟩ := hloc
   simp only [wfC] at hwf
-  have hen' : root = cur ∨ enFreeList items = true := by simpa [enFree] using hen
   have hend : pc + len (.list items) = pc + lenList items + 1 := by simp only [len]; omega
   rw [hend] at hlt ⊢
   simp only [evalFS] at h
@@ -69,7 +67,7 @@ theorem sim_list {fuel : Nat} (ihL : SimL fo host P bodies fuel)
   | fuelOut => simp [hl] at h
   | ok p =>
     obtain ⟨r, st1⟩ := p
-    have ihr := ihL cur items st [] r st1 hl root pc rs vs fr entry hll hwf hen' hj hent (by omega)
+    have ihr := ihL cur items st [] r st1 hl root pc rs vs fr entry hll hwf hj hent (by omega)
     cases r with
     | inl vals =>
       simp only [hl, Out.ok.injEq, Prod.mk.injEq] at h
@@ -94,12 +92,11 @@ theorem sim_list {fuel : Nat} (ihL : SimL fo host P bodies fuel)
 
 theorem sim_prefixApply {fuel : Nat} (ih : SimE fo host P bodies fuel) (ihA : SimA fo host P bodies fuel)
     (sym : Nat) (x : Expr F) : SimAt fo host P bodies (fuel + 1) (.prefixApply sym x) := by
-  intro cur st res st' h root pc rs vs fr entry hloc hwf hen hj hent hlt
+  intro cur st res st' h root pc rs vs fr entry hloc hwf hj hent hlt
   have h0 := h
   simp only [Located] at hloc
   obtain ⟨⟨k, hi0, hc⟩, hlx, hi⟩ := hloc
   simp only [wfC] at hwf
-  have hen' : root = cur ∨ enFree x = true := by simpa [enFree] using hen
   have hend : pc + len (.prefixApply sym x) = pc + 1 + len x + 1 := by simp only [len]; omega
   rw [hend] at hlt ⊢
   simp only [evalFS] at h
@@ -109,13 +106,13 @@ theorem sim_prefixApply {fuel : Nat} (ih : SimE fo host P bodies fuel) (ihA : Si
       rw [hinp]; exact .single (step_resolve hi0 hc (by omega) rfl rfl hr)
     rcases eval_cases (fo := fo) (host := host) (bodies := bodies) (cur := cur) (fuel := fuel) (x := x) (st := st1)
       with ⟨wx, st2, hy⟩ | ⟨w, st2, hy⟩ | ⟨e, hy⟩ | hy <;> simp only [hy] at h
-    · have ihx := (ih x cur st1 _ _ hy root (pc + 1) (wf :: rs) vs fr entry hlx hwf hen' hj hent (by omega)).toReach
+    · have ihx := (ih x cur st1 _ _ hy root (pc + 1) (wf :: rs) vs fr entry hlx hwf hj hent (by omega)).toReach
       obtain ⟨v, rfl, hr⟩ := apply_reach ihA h (regs := wx :: wf :: rs) (rs := rs) hlt (step_apply hi)
       exact ResOK.ofReach ((h1.trans ihx).trans hr)
     · simp only [Out.ok.injEq, Prod.mk.injEq] at h
       obtain ⟨rfl, rfl⟩ := h
       exact ResOK.sub_restart (pend := [wf]) h1
-        (ih x cur st1 _ _ hy root (pc + 1) (wf :: rs) vs fr entry hlx hwf hen' hj hent (by omega))
+        (ih x cur st1 _ _ hy root (pc + 1) (wf :: rs) vs fr entry hlx hwf hj hent (by omega))
         (fun ht => (noR_sound (by simpa [tailR] using ht) h0).elim)
     · simp at h
     · simp at h
@@ -123,12 +120,11 @@ theorem sim_prefixApply {fuel : Nat} (ih : SimE fo host P bodies fuel) (ihA : Si
 
 theorem sim_suffixApply {fuel : Nat} (ih : SimE fo host P bodies fuel) (ihA : SimA fo host P bodies fuel)
     (x : Expr F) (sym : Nat) : SimAt fo host P bodies (fuel + 1) (.suffixApply x sym) := by
-  intro cur st res st' h root pc rs vs fr entry hloc hwf hen hj hent hlt
+  intro cur st res st' h root pc rs vs fr entry hloc hwf hj hent hlt
   have h0 := h
   simp only [Located] at hloc
   obtain ⟨⟨k, hi0, hc⟩, hlx, hi⟩ := hloc
   simp only [wfC] at hwf
-  have hen' : root = cur ∨ enFree x = true := by simpa [enFree] using hen
   have hend : pc + len (.suffixApply x sym) = pc + 1 + len x + 1 := by simp only [len]; omega
   rw [hend] at hlt ⊢
   simp only [evalFS] at h
@@ -138,13 +134,13 @@ theorem sim_suffixApply {fuel : Nat} (ih : SimE fo host P bodies fuel) (ihA : Si
       rw [hinp]; exact .single (step_resolve hi0 hc (by omega) rfl rfl hr)
     rcases eval_cases (fo := fo) (host := host) (bodies := bodies) (cur := cur) (fuel := fuel) (x := x) (st := st1)
       with ⟨wx, st2, hy⟩ | ⟨w, st2, hy⟩ | ⟨e, hy⟩ | hy <;> simp only [hy] at h
-    · have ihx := (ih x cur st1 _ _ hy root (pc + 1) (wf :: rs) vs fr entry hlx hwf hen' hj hent (by omega)).toReach
+    · have ihx := (ih x cur st1 _ _ hy root (pc + 1) (wf :: rs) vs fr entry hlx hwf hj hent (by omega)).toReach
       obtain ⟨v, rfl, hr⟩ := apply_reach ihA h (regs := wx :: wf :: rs) (rs := rs) hlt (step_apply hi)
       exact ResOK.ofReach ((h1.trans ihx).trans hr)
     · simp only [Out.ok.injEq, Prod.mk.injEq] at h
       obtain ⟨rfl, rfl⟩ := h
       exact ResOK.sub_restart (pend := [wf]) h1
-        (ih x cur st1 _ _ hy root (pc + 1) (wf :: rs) vs fr entry hlx hwf hen' hj hent (by omega))
+        (ih x cur st1 _ _ hy root (pc + 1) (wf :: rs) vs fr entry hlx hwf hj hent (by omega))
         (fun ht => (noR_sound (by simpa [tailR] using ht) h0).elim)
     · simp at h
     · simp at h
@@ -152,12 +148,11 @@ theorem sim_suffixApply {fuel : Nat} (ih : SimE fo host P bodies fuel) (ihA : Si
 
 theorem sim_infixApply {fuel : Nat} (ih : SimE fo host P bodies fuel) (ihA : SimA fo host P bodies fuel)
     (a : Expr F) (sym : Nat) (b : Expr F) : SimAt fo host P bodies (fuel + 1) (.infixApply a sym b) := by
-  intro cur st res st' h root pc rs vs fr entry hloc hwf hen hj hent hlt
+  intro cur st res st' h root pc rs vs fr entry hloc hwf hj hent hlt
   have h0 := h
   simp only [Located] at hloc
   obtain ⟨⟨k, hi0, hc⟩, hla, hlb, hi1, hi2⟩ := hloc
   simp only [wfC, Bool.and_eq_true] at hwf
-  have hen' : root = cur ∨ (enFree a = true ∧ enFree b = true) := by simpa [enFree] using hen
   have hend : pc + len (.infixApply a sym b) = pc + 1 + len a + len b + 1 + 1 := by simp only [len]; omega
   rw [hend] at hlt ⊢
   simp only [evalFS] at h
@@ -167,12 +162,12 @@ theorem sim_infixApply {fuel : Nat} (ih : SimE fo host P bodies fuel) (ihA : Sim
       rw [hinp]; exact .single (step_resolve hi0 hc (by omega) rfl rfl hr)
     rcases eval_cases (fo := fo) (host := host) (bodies := bodies) (cur := cur) (fuel := fuel) (x := a) (st := st1)
       with ⟨wa, st2, hy⟩ | ⟨w, st2, hy⟩ | ⟨e, hy⟩ | hy <;> simp only [hy] at h
-    · have iha := (ih a cur st1 _ _ hy root (pc + 1) (wf :: rs) vs fr entry hla hwf.1 (hen'.imp id (·.1)) hj hent
+    · have iha := (ih a cur st1 _ _ hy root (pc + 1) (wf :: rs) vs fr entry hla hwf.1 hj hent
         (by omega)).toReach
       rcases eval_cases (fo := fo) (host := host) (bodies := bodies) (cur := cur) (fuel := fuel) (x := b) (st := st2)
         with ⟨wb, st3, hz⟩ | ⟨w, st3, hz⟩ | ⟨e, hz⟩ | hz <;> simp only [hz] at h
       · have ihb := (ih b cur st2 _ _ hz root (pc + 1 + len a) (wa :: wf :: rs) vs fr entry hlb hwf.2
-          (hen'.imp id (·.2)) hj hent (by omega)).toReach
+          hj hent (by omega)).toReach
         have hml := step_makeList (fo := fo) (host := host) (P := P) (pc := pc + 1 + len a + len b)
           (regs := wb :: wa :: wf :: rs) (vs := st3.inp :: vs) (fr := fr) (tr := st3.trace) hi1 (by omega) (by simp)
         simp only [List.take_succ_cons, List.take_zero, List.reverse_cons, List.reverse_nil, List.nil_append,
@@ -182,7 +177,7 @@ theorem sim_infixApply {fuel : Nat} (ih : SimE fo host P bodies fuel) (ihA : Sim
       · simp only [Out.ok.injEq, Prod.mk.injEq] at h
         obtain ⟨rfl, rfl⟩ := h
         exact ResOK.sub_restart (pend := [wa, wf]) (h1.trans iha)
-          (ih b cur st2 _ _ hz root (pc + 1 + len a) (wa :: wf :: rs) vs fr entry hlb hwf.2 (hen'.imp id (·.2)) hj hent
+          (ih b cur st2 _ _ hz root (pc + 1 + len a) (wa :: wf :: rs) vs fr entry hlb hwf.2 hj hent
             (by omega))
           (fun ht => (noR_sound (by simpa [tailR] using ht) h0).elim)
       · simp at h
@@ -190,7 +185,7 @@ theorem sim_infixApply {fuel : Nat} (ih : SimE fo host P bodies fuel) (ihA : Sim
     · simp only [Out.ok.injEq, Prod.mk.injEq] at h
       obtain ⟨rfl, rfl⟩ := h
       exact ResOK.sub_restart (pend := [wf]) h1
-        (ih a cur st1 _ _ hy root (pc + 1) (wf :: rs) vs fr entry hla hwf.1 (hen'.imp id (·.1)) hj hent (by omega))
+        (ih a cur st1 _ _ hy root (pc + 1) (wf :: rs) vs fr entry hla hwf.1 hj hent (by omega))
         (fun ht => (noR_sound (by simpa [tailR] using ht) h0).elim)
     · simp at h
     · simp at h
@@ -204,7 +199,7 @@ theorem branch_body {fuel : Nat} (ih : SimE fo host P bodies fuel) {cur : Nat} {
     {j tb join pcJoin entry : Nat} {rs vs : List (Val F)} {fr : List (Frame F)}
     (hlt : Located P j cur tb t)
     (hterm : InstrsAt P (tb + len t) (termsAfter P (tb + len t) [(.jumpTo, some join)]))
-    (hwf : wfC t = true) (henf : enFree t = true) (hjoin : P.jumps[join]? = some pcJoin) (hne : join ≠ cur)
+    (hwf : wfC t = true) (hjoin : P.jumps[join]? = some pcJoin) (hne : join ≠ cur)
     (hpj : pcJoin < P.instrs.size) (hj : P.jumps[cur]? = some entry) (hent : entry < P.instrs.size) :
     tb < P.instrs.size ∧ ResOK fo host P entry tb pcJoin (tailR t) rs vs fr st res st' := by
   rw [termsAfter_jump] at hterm
@@ -212,30 +207,26 @@ theorem branch_body {fuel : Nat} (ih : SimE fo host P bodies fuel) {cur : Nat} {
   have hsz := lt_size_of_get hterm
   have := len_pos t
   refine ⟨by omega, ?_⟩
-  have ihx := ih t cur st res st' h j tb rs vs fr entry hlt hwf (.inr henf) hj hent hsz
+  have ihx := ih t cur st res st' h j tb rs vs fr entry hlt hwf hj hent hsz
   cases res with
   | val v => exact ResOK.ofReach (ihx.toReach.snoc (step_jumpTo hterm hjoin hpj))
   | restart v => exact ihx
 
 theorem sim_cond {fuel : Nat} (ih : SimE fo host P bodies fuel)
     (onTrue : Bool) (c t : Expr F) : SimAt fo host P bodies (fuel + 1) (.cond onTrue c t) := by
-  intro cur st res st' h root pc rs vs fr entry hloc hwf hen hj hent hlt
+  intro cur st res st' h root pc rs vs fr entry hloc hwf hj hent hlt
   simp only [Located] at hloc
   obtain ⟨hlc, j, join, tb, hi1, hi2, hjj, hjoin, hne, hlt', hterm⟩ := hloc
   simp only [wfC, Bool.and_eq_true] at hwf
-  have hen' : root = cur ∨ enFree c = true := by
-    rcases hen with h | h
-    · exact .inl h
-    · simp only [enFree, Bool.and_eq_true] at h; exact .inr h.1
   have hend : pc + len (.cond onTrue c t) = pc + len c + 2 := by simp only [len]; omega
   rw [hend] at hlt ⊢
   simp only [evalFS] at h
   rcases eval_cases (fo := fo) (host := host) (bodies := bodies) (cur := cur) (fuel := fuel) (x := c) (st := st)
     with ⟨wc, st1, hx⟩ | ⟨w, st1, hx⟩ | ⟨e, hx⟩ | hx <;> simp only [hx] at h
-  · have ihc := (ih c cur st _ _ hx root pc rs vs fr entry hlc hwf.1.1 hen' hj hent (by omega)).toReach
+  · have ihc := (ih c cur st _ _ hx root pc rs vs fr entry hlc hwf.1 hj hent (by omega)).toReach
     split at h
     · rename_i htr
-      obtain ⟨htb, hb⟩ := branch_body (rs := rs) (vs := vs) (fr := fr) ih h hlt' hterm hwf.1.2 hwf.2 hjoin hne hlt hj hent
+      obtain ⟨htb, hb⟩ := branch_body (rs := rs) (vs := vs) (fr := fr) ih h hlt' hterm hwf.2 hjoin hne hlt hj hent
       have hjmp := step_jumpIf (fo := fo) (host := host) (rs := rs) (vs := st1.inp :: vs) (fr := fr) (tr := st1.trace)
         (d := wc) hi1 hjj htb (by omega)
       simp only [htr, if_true] at hjmp
@@ -261,7 +252,7 @@ theorem sim_cond {fuel : Nat} (ih : SimE fo host P bodies fuel)
   · simp only [Out.ok.injEq, Prod.mk.injEq] at h
     obtain ⟨rfl, rfl⟩ := h
     refine ResOK.sub_restart (pend := []) (.refl _)
-      (ih c cur st _ _ hx root pc rs vs fr entry hlc hwf.1.1 hen' hj hent (by omega)) (fun ht => ?_)
+      (ih c cur st _ _ hx root pc rs vs fr entry hlc hwf.1 hj hent (by omega)) (fun ht => ?_)
     simp only [tailR, Bool.and_eq_true] at ht
     exact (noR_sound ht.1 hx).elim
   · simp at h
@@ -269,13 +260,12 @@ theorem sim_cond {fuel : Nat} (ih : SimE fo host P bodies fuel)
 
 theorem simC_step {fuel : Nat} (ih : SimE fo host P bodies fuel) (ihC : SimC fo host P bodies fuel) :
     SimC fo host P bodies (fuel + 1) := by
-  intro cur arms fe st res st' h root pc rs vs fr entry join hla hlf hwa hwf hen hjoin hj hent hlt
+  intro cur arms fe st res st' h root pc rs vs fr entry join hla hlf hwa hwf hjoin hj hent hlt
   cases arms with
   | nil =>
     simp only [evalChainS] at h
     simp only [lenArms, Nat.add_zero] at hlf hlt ⊢
-    have hen' : root = cur ∨ enFree fe = true := by simpa [enFreeArms] using hen
-    have := ih fe cur st res st' h root pc rs vs fr entry hlf hwf hen' hj hent hlt
+    have := ih fe cur st res st' h root pc rs vs fr entry hlf hwf hj hent hlt
     simpa [tailRArms] using this
   | cons arm rest =>
     obtain ⟨onTrue, c, t⟩ := arm
@@ -283,10 +273,6 @@ theorem simC_step {fuel : Nat} (ih : SimE fo host P bodies fuel) (ihC : SimC fo 
     simp only [LocatedArms] at hla
     obtain ⟨hlc, ⟨j, tb, hi1, hjj, hlt', hterm⟩, hlr⟩ := hla
     simp only [wfCArms, Bool.and_eq_true] at hwa
-    have hen' : root = cur ∨ (enFree c = true ∧ enFreeArms rest = true ∧ enFree fe = true) := by
-      rcases hen with h | h
-      · exact .inl h
-      · simp only [enFreeArms, Bool.and_eq_true] at h; exact .inr ⟨h.1.1.1, h.1.2, h.2⟩
     have hend : pc + lenArms ((onTrue, c, t) :: rest) + len fe = pc + len c + 1 + lenArms rest + len fe := by
       simp only [lenArms]; omega
     rw [hend] at hlt hjoin ⊢
@@ -296,7 +282,7 @@ theorem simC_step {fuel : Nat} (ih : SimE fo host P bodies fuel) (ihC : SimC fo 
     simp only [evalChainS] at h
     rcases eval_cases (fo := fo) (host := host) (bodies := bodies) (cur := cur) (fuel := fuel) (x := c) (st := st)
       with ⟨wc, st1, hx⟩ | ⟨w, st1, hx⟩ | ⟨e, hx⟩ | hx <;> simp only [hx] at h
-    · have ihc := (ih c cur st _ _ hx root pc rs vs fr entry hlc hwa.1.1.1 (hen'.imp id (·.1)) hj hent (by omega)).toReach
+    · have ihc := (ih c cur st _ _ hx root pc rs vs fr entry hlc hwa.1.1 hj hent (by omega)).toReach
       have htb : tb < P.instrs.size := by
         rw [termsAfter_jump] at hterm
         simp only [InstrsAt, and_true] at hterm
@@ -306,7 +292,7 @@ theorem simC_step {fuel : Nat} (ih : SimE fo host P bodies fuel) (ihC : SimC fo 
         (d := wc) hi1 hjj htb (by omega)
       split at h
       · rename_i htr
-        obtain ⟨_, hb⟩ := branch_body (rs := rs) (vs := vs) (fr := fr) ih h hlt' hterm hwa.1.1.2 hwa.1.2 hjoin hne hlt hj hent
+        obtain ⟨_, hb⟩ := branch_body (rs := rs) (vs := vs) (fr := fr) ih h hlt' hterm hwa.1.2 hjoin hne hlt hj hent
         simp only [htr, if_true] at hjmp
         have pre := ihc.snoc hjmp
         cases res with
@@ -319,7 +305,7 @@ theorem simC_step {fuel : Nat} (ih : SimE fo host P bodies fuel) (ihC : SimC fo 
         simp only [htr, Bool.false_eq_true, if_false] at hjmp
         have pre := ihc.snoc hjmp
         have ihr := ihC cur rest fe st1 res st' h root (pc + len c + 1) rs vs fr entry join hlr hlf' hwa.2 hwf
-          (hen'.imp id (fun h => by simp [h.2.1, h.2.2])) (fun _ => ⟨hjoin, hne⟩) hj hent hlt
+          (fun _ => ⟨hjoin, hne⟩) hj hent hlt
         cases res with
         | val v => exact ResOK.ofReach (pre.trans ihr.toReach)
         | restart v =>
@@ -329,7 +315,7 @@ theorem simC_step {fuel : Nat} (ih : SimE fo host P bodies fuel) (ihC : SimC fo 
     · simp only [Out.ok.injEq, Prod.mk.injEq] at h
       obtain ⟨rfl, rfl⟩ := h
       refine ResOK.sub_restart (pend := []) (.refl _)
-        (ih c cur st _ _ hx root pc rs vs fr entry hlc hwa.1.1.1 (hen'.imp id (·.1)) hj hent (by omega)) (fun ht => ?_)
+        (ih c cur st _ _ hx root pc rs vs fr entry hlc hwa.1.1 hj hent (by omega)) (fun ht => ?_)
       simp only [tailRArms, Bool.and_eq_true] at ht
       exact (noR_sound ht.1.1.1 hx).elim
     · simp at h
@@ -337,7 +323,7 @@ theorem simC_step {fuel : Nat} (ih : SimE fo host P bodies fuel) (ihC : SimC fo 
 
 theorem simCN_step {fuel : Nat} (ih : SimE fo host P bodies fuel) (ihC : SimCN fo host P bodies fuel) :
     SimCN fo host P bodies (fuel + 1) := by
-  intro cur arms st res st' h root pc rs vs fr entry join hla hwa hen hjoin hj hent hlt
+  intro cur arms st res st' h root pc rs vs fr entry join hla hwa hjoin hj hent hlt
   cases arms with
   | nil => simp [evalChainS] at h
   | cons arm rest =>
@@ -346,17 +332,13 @@ theorem simCN_step {fuel : Nat} (ih : SimE fo host P bodies fuel) (ihC : SimCN f
     simp only [LocatedArms] at hla
     obtain ⟨hlc, ⟨j, tb, hi1, hjj, hlt', hterm⟩, hlr⟩ := hla
     simp only [wfCArms, Bool.and_eq_true] at hwa
-    have hen' : root = cur ∨ (enFree c = true ∧ enFreeArms rest = true) := by
-      rcases hen with h | h
-      · exact .inl h
-      · simp only [enFreeArms, Bool.and_eq_true] at h; exact .inr ⟨h.1.1, h.2⟩
     have hend : pc + lenArms ((onTrue, c, t) :: rest) = pc + len c + 1 + lenArms rest := by
       simp only [lenArms]; omega
     rw [hend] at hlt hjoin ⊢
     simp only [evalChainS] at h
     rcases eval_cases (fo := fo) (host := host) (bodies := bodies) (cur := cur) (fuel := fuel) (x := c) (st := st)
       with ⟨wc, st1, hx⟩ | ⟨w, st1, hx⟩ | ⟨e, hx⟩ | hx <;> simp only [hx] at h
-    · have ihc := (ih c cur st _ _ hx root pc rs vs fr entry hlc hwa.1.1.1 (hen'.imp id (·.1)) hj hent (by omega)).toReach
+    · have ihc := (ih c cur st _ _ hx root pc rs vs fr entry hlc hwa.1.1 hj hent (by omega)).toReach
       have htb : tb < P.instrs.size := by
         rw [termsAfter_jump] at hterm
         simp only [InstrsAt, and_true] at hterm
@@ -366,7 +348,7 @@ theorem simCN_step {fuel : Nat} (ih : SimE fo host P bodies fuel) (ihC : SimCN f
         (d := wc) hi1 hjj htb (by omega)
       split at h
       · rename_i htr
-        obtain ⟨_, hb⟩ := branch_body (rs := rs) (vs := vs) (fr := fr) ih h hlt' hterm hwa.1.1.2 hwa.1.2 hjoin hne hlt hj hent
+        obtain ⟨_, hb⟩ := branch_body (rs := rs) (vs := vs) (fr := fr) ih h hlt' hterm hwa.1.2 hjoin hne hlt hj hent
         simp only [htr, if_true] at hjmp
         have pre := ihc.snoc hjmp
         cases res with
@@ -379,7 +361,7 @@ theorem simCN_step {fuel : Nat} (ih : SimE fo host P bodies fuel) (ihC : SimCN f
         simp only [htr, Bool.false_eq_true, if_false] at hjmp
         have pre := ihc.snoc hjmp
         have ihr := ihC cur rest st1 res st' h root (pc + len c + 1) rs vs fr entry join hlr hwa.2
-          (hen'.imp id (fun h => h.2)) (fun _ => ⟨hjoin, hne⟩) hj hent hlt
+          (fun _ => ⟨hjoin, hne⟩) hj hent hlt
         cases res with
         | val v => exact ResOK.ofReach (pre.trans ihr.toReach)
         | restart v =>
@@ -389,7 +371,7 @@ theorem simCN_step {fuel : Nat} (ih : SimE fo host P bodies fuel) (ihC : SimCN f
     · simp only [Out.ok.injEq, Prod.mk.injEq] at h
       obtain ⟨rfl, rfl⟩ := h
       refine ResOK.sub_restart (pend := []) (.refl _)
-        (ih c cur st _ _ hx root pc rs vs fr entry hlc hwa.1.1.1 (hen'.imp id (·.1)) hj hent (by omega)) (fun ht => ?_)
+        (ih c cur st _ _ hx root pc rs vs fr entry hlc hwa.1.1 hj hent (by omega)) (fun ht => ?_)
       simp only [tailRArms, Bool.and_eq_true] at ht
       exact (noR_sound ht.1.1 hx).elim
     · simp at h
@@ -398,7 +380,7 @@ theorem simCN_step {fuel : Nat} (ih : SimE fo host P bodies fuel) (ihC : SimCN f
 theorem sim_chain {fuel : Nat} (ihC : SimC fo host P bodies fuel) (ihCN : SimCN fo host P bodies fuel)
     (arms : List (Bool × Expr F × Expr F)) (final : Option (Expr F)) :
     SimAt fo host P bodies (fuel + 1) (.chain arms final) := by
-  intro cur st res st' h root pc rs vs fr entry hloc hwf hen hj hent hlt
+  intro cur st res st' h root pc rs vs fr entry hloc hwf hj hent hlt
   cases final with
   | none =>
     rw [Located_chain] at hloc
@@ -410,11 +392,7 @@ theorem sim_chain {fuel : Nat} (ihC : SimC fo host P bodies fuel) (ihCN : SimCN 
     | cons a rest =>
       have hend : pc + len (.chain (a :: rest) none) = pc + lenArms (a :: rest) := by rw [len_chain]; simp only; omega
       rw [hend] at hlt hjoin ⊢
-      have hen' : root = cur ∨ enFreeArms (a :: rest) = true := by
-        rcases hen with h | h
-        · exact .inl h
-        · rw [enFree_chain] at h; simp only [Bool.and_eq_true] at h; exact .inr h.1
-      have := ihCN cur (a :: rest) st res st' h root pc rs vs fr entry join hla hwf.1 hen' hjoin hj hent hlt
+      have := ihCN cur (a :: rest) st res st' h root pc rs vs fr entry join hla hwf.1 hjoin hj hent hlt
       rw [tailR_chain]
       simpa using this
   | some fe =>
@@ -424,11 +402,7 @@ theorem sim_chain {fuel : Nat} (ihC : SimC fo host P bodies fuel) (ihCN : SimCN 
     have hend : pc + len (.chain arms (some fe)) = pc + lenArms arms + len fe := by rw [len_chain]; simp only; omega
     rw [hend] at hlt hjoin ⊢
     simp only [evalFS] at h
-    have hen' : root = cur ∨ (enFreeArms arms && enFree fe) = true := by
-      rcases hen with h | h
-      · exact .inl h
-      · rw [enFree_chain] at h; exact .inr h
-    have := ihC cur arms fe st res st' h root pc rs vs fr entry join hla hlf hwf.1 hwf.2 hen' hjoin hj hent hlt
+    have := ihC cur arms fe st res st' h root pc rs vs fr entry join hla hlf hwf.1 hwf.2 hjoin hj hent hlt
     rw [tailR_chain]
     exact this
 
@@ -438,7 +412,7 @@ theorem logical_body {fuel : Nat} (ih : SimE fo host P bodies fuel) {cur : Nat} 
     {j tb join pcJoin entry : Nat} {rs vs : List (Val F)} {fr : List (Frame F)}
     (hlr : Located P j cur tb r)
     (hterm : InstrsAt P (tb + len r) (termsAfter P (tb + len r) [(.tis, none), (.jumpTo, some join)]))
-    (hwf : wfC r = true) (henf : enFree r = true)
+    (hwf : wfC r = true)
     (hjoin : P.jumps[join]? = some pcJoin)
     (hpj : pcJoin < P.instrs.size) (hj : P.jumps[cur]? = some entry) (hent : entry < P.instrs.size) :
     tb < P.instrs.size ∧
@@ -453,7 +427,7 @@ theorem logical_body {fuel : Nat} (ih : SimE fo host P bodies fuel) {cur : Nat} 
   have hsz := lt_size_of_get ht1
   have hsz2 := lt_size_of_get ht2
   refine ⟨by omega, ?_⟩
-  have ihx := ih r cur st res st' h j tb rs vs fr entry hlr hwf (.inr henf) hj hent hsz
+  have ihx := ih r cur st res st' h j tb rs vs fr entry hlr hwf hj hent hsz
   cases res with
   | val v =>
     have hs : settle host st' (.val (Val.ofBool v.truthy)) = .ok (Val.ofBool v.truthy, st') := rfl
@@ -464,25 +438,21 @@ theorem logical_body {fuel : Nat} (ih : SimE fo host P bodies fuel) {cur : Nat} 
 
 theorem sim_and {fuel : Nat} (ih : SimE fo host P bodies fuel)
     (l r : Expr F) : SimAt fo host P bodies (fuel + 1) (.and l r) := by
-  intro cur st res st' h root pc rs vs fr entry hloc hwf hen hj hent hlt
+  intro cur st res st' h root pc rs vs fr entry hloc hwf hj hent hlt
   simp only [Located] at hloc
   obtain ⟨hll, j, join, tb, hi1, hjj, hjoin, hne, hlr, hterm⟩ := hloc
   simp only [wfC, Bool.and_eq_true] at hwf
-  have hen' : root = cur ∨ enFree l = true := by
-    rcases hen with h | h
-    · exact .inl h
-    · simp only [enFree, Bool.and_eq_true] at h; exact .inr h.1
   have hend : pc + len (.and l r) = pc + len l + 1 := by simp only [len]; omega
   rw [hend] at hlt ⊢
   simp only [evalFS] at h
   rcases eval_cases (fo := fo) (host := host) (bodies := bodies) (cur := cur) (fuel := fuel) (x := l) (st := st)
     with ⟨wl, st1, hx⟩ | ⟨w, st1, hx⟩ | ⟨e, hx⟩ | hx <;> simp only [hx] at h
-  · have ihl := (ih l cur st _ _ hx root pc rs vs fr entry hll hwf.1.1 hen' hj hent (by omega)).toReach
+  · have ihl := (ih l cur st _ _ hx root pc rs vs fr entry hll hwf.1 hj hent (by omega)).toReach
     split at h
     · rename_i htr
       rcases eval_cases (fo := fo) (host := host) (bodies := bodies) (cur := cur) (fuel := fuel) (x := r) (st := st1)
         with ⟨wr, st2, hy⟩ | ⟨w, st2, hy⟩ | ⟨e, hy⟩ | hy <;> simp only [hy] at h
-      · obtain ⟨htb, hb⟩ := logical_body (rs := rs) (vs := vs) (fr := fr) ih hy hlr hterm hwf.1.2 hwf.2 hjoin
+      · obtain ⟨htb, hb⟩ := logical_body (rs := rs) (vs := vs) (fr := fr) ih hy hlr hterm hwf.2 hjoin
           hlt hj hent
         have hjmp := step_and (fo := fo) (host := host) (rs := rs) (vs := st1.inp :: vs) (fr := fr) (tr := st1.trace)
           (d := wl) hi1 hjj htb (by omega)
@@ -490,7 +460,7 @@ theorem sim_and {fuel : Nat} (ih : SimE fo host P bodies fuel)
         simp only [Out.ok.injEq, Prod.mk.injEq] at h
         obtain ⟨rfl, rfl⟩ := h
         exact ResOK.ofReach ((ihl.snoc hjmp).trans hb)
-      · obtain ⟨htb, hb⟩ := logical_body (rs := rs) (vs := vs) (fr := fr) ih hy hlr hterm hwf.1.2 hwf.2 hjoin
+      · obtain ⟨htb, hb⟩ := logical_body (rs := rs) (vs := vs) (fr := fr) ih hy hlr hterm hwf.2 hjoin
           hlt hj hent
         have hjmp := step_and (fo := fo) (host := host) (rs := rs) (vs := st1.inp :: vs) (fr := fr) (tr := st1.trace)
           (d := wl) hi1 hjj htb (by omega)
@@ -516,7 +486,7 @@ theorem sim_and {fuel : Nat} (ih : SimE fo host P bodies fuel)
   · simp only [Out.ok.injEq, Prod.mk.injEq] at h
     obtain ⟨rfl, rfl⟩ := h
     refine ResOK.sub_restart (pend := []) (.refl _)
-      (ih l cur st _ _ hx root pc rs vs fr entry hll hwf.1.1 hen' hj hent (by omega)) (fun ht => ?_)
+      (ih l cur st _ _ hx root pc rs vs fr entry hll hwf.1 hj hent (by omega)) (fun ht => ?_)
     simp only [tailR, Bool.and_eq_true] at ht
     exact (noR_sound ht.1 hx).elim
   · simp at h
@@ -524,20 +494,16 @@ theorem sim_and {fuel : Nat} (ih : SimE fo host P bodies fuel)
 
 theorem sim_or {fuel : Nat} (ih : SimE fo host P bodies fuel)
     (l r : Expr F) : SimAt fo host P bodies (fuel + 1) (.or l r) := by
-  intro cur st res st' h root pc rs vs fr entry hloc hwf hen hj hent hlt
+  intro cur st res st' h root pc rs vs fr entry hloc hwf hj hent hlt
   simp only [Located] at hloc
   obtain ⟨hll, j, join, tb, hi1, hjj, hjoin, hne, hlr, hterm⟩ := hloc
   simp only [wfC, Bool.and_eq_true] at hwf
-  have hen' : root = cur ∨ enFree l = true := by
-    rcases hen with h | h
-    · exact .inl h
-    · simp only [enFree, Bool.and_eq_true] at h; exact .inr h.1
   have hend : pc + len (.or l r) = pc + len l + 1 := by simp only [len]; omega
   rw [hend] at hlt ⊢
   simp only [evalFS] at h
   rcases eval_cases (fo := fo) (host := host) (bodies := bodies) (cur := cur) (fuel := fuel) (x := l) (st := st)
     with ⟨wl, st1, hx⟩ | ⟨w, st1, hx⟩ | ⟨e, hx⟩ | hx <;> simp only [hx] at h
-  · have ihl := (ih l cur st _ _ hx root pc rs vs fr entry hll hwf.1.1 hen' hj hent (by omega)).toReach
+  · have ihl := (ih l cur st _ _ hx root pc rs vs fr entry hll hwf.1 hj hent (by omega)).toReach
     split at h
     · rename_i htr
       simp only [Out.ok.injEq, Prod.mk.injEq] at h
@@ -553,7 +519,7 @@ theorem sim_or {fuel : Nat} (ih : SimE fo host P bodies fuel)
     · rename_i htr
       rcases eval_cases (fo := fo) (host := host) (bodies := bodies) (cur := cur) (fuel := fuel) (x := r) (st := st1)
         with ⟨wr, st2, hy⟩ | ⟨w, st2, hy⟩ | ⟨e, hy⟩ | hy <;> simp only [hy] at h
-      · obtain ⟨htb, hb⟩ := logical_body (rs := rs) (vs := vs) (fr := fr) ih hy hlr hterm hwf.1.2 hwf.2 hjoin
+      · obtain ⟨htb, hb⟩ := logical_body (rs := rs) (vs := vs) (fr := fr) ih hy hlr hterm hwf.2 hjoin
           hlt hj hent
         have hjmp := step_or (fo := fo) (host := host) (rs := rs) (vs := st1.inp :: vs) (fr := fr) (tr := st1.trace)
           (d := wl) hi1 hjj htb (by omega)
@@ -561,7 +527,7 @@ theorem sim_or {fuel : Nat} (ih : SimE fo host P bodies fuel)
         simp only [Out.ok.injEq, Prod.mk.injEq] at h
         obtain ⟨rfl, rfl⟩ := h
         exact ResOK.ofReach ((ihl.snoc hjmp).trans hb)
-      · obtain ⟨htb, hb⟩ := logical_body (rs := rs) (vs := vs) (fr := fr) ih hy hlr hterm hwf.1.2 hwf.2 hjoin
+      · obtain ⟨htb, hb⟩ := logical_body (rs := rs) (vs := vs) (fr := fr) ih hy hlr hterm hwf.2 hjoin
           hlt hj hent
         have hjmp := step_or (fo := fo) (host := host) (rs := rs) (vs := st1.inp :: vs) (fr := fr) (tr := st1.trace)
           (d := wl) hi1 hjj htb (by omega)
@@ -576,7 +542,7 @@ theorem sim_or {fuel : Nat} (ih : SimE fo host P bodies fuel)
   · simp only [Out.ok.injEq, Prod.mk.injEq] at h
     obtain ⟨rfl, rfl⟩ := h
     refine ResOK.sub_restart (pend := []) (.refl _)
-      (ih l cur st _ _ hx root pc rs vs fr entry hll hwf.1.1 hen' hj hent (by omega)) (fun ht => ?_)
+      (ih l cur st _ _ hx root pc rs vs fr entry hll hwf.1 hj hent (by omega)) (fun ht => ?_)
     simp only [tailR, Bool.and_eq_true] at ht
     exact (noR_sound ht.1 hx).elim
   · simp at h
